@@ -177,7 +177,7 @@ def check_add_intermediate(ck):
     _v.CONFIG['merge_vec_lengths'] = False
     try: res = eng.call_body(st, cfn(eng, 'add_intermediate_poses'), [eng.tmp_ref(st, 0, planner), eng.tmp_ref(st, 0, A), eng.tmp_ref(st, 0, B), poses])
     finally: _v.CONFIG['merge_vec_lengths'] = True
-    case = lambda m=None: dict(scene='free')
+    case = lambda m=None: dict(scene='reorient')
     label = 'add_intermediate_poses: '
     ck.states += len(res)
     seen = set()
